@@ -206,6 +206,10 @@ Judge(s, e) ==
     [] e.ev = "BagOut" /\ s.src # <<>> -> Failed("C18/Bag", BagNames(s.src[1], e))
     [] e.ev = "DbOut" /\ s.src # <<>> -> Failed("C18/Db3", DbNames(s.src[1], e))
     [] e.ev = "BagCase" -> IF e.class \in {"ok", "error", "eof"} THEN {} ELSE {"C18/BagRobustness/" \o e.class \o "/" \o e.kind}
+    [] e.ev = "Det" -> IF e.same THEN {} ELSE {"C13/NotDeterministic/" \o e.kind}
+    [] e.ev = "Race" -> (IF e.ran THEN {} ELSE {"C13/RaceRun/Failed"})
+                        \cup (IF e.ran /\ e.differing # 0 THEN {"C13/NotDeterministic/concurrent-goroutines"} ELSE {})
+                        \cup (IF e.mcapRaces # 0 THEN {"C13/DataRace"} ELSE {})
     [] e.ev = "PyRead" -> JudgePy(s, e)
     [] e.ev = "PyWrite" -> IF e.ok THEN {} ELSE {"C16/PythonWriter/Failed"}
     [] OTHER -> {}
